@@ -475,6 +475,11 @@ class EngineB:
                                 f"{op}({self._describe(step)}): result ({heap.kind_of(obj)}) shares memory with live object #{o} ({heap.kinds[o]}): {sh}",
                             )
                         allowed_ids.append(o)
+                if self._too_big(obj):
+                    # chains of outer products grow without bound; a result of thousands of cells or many modes is judged
+                    # (above) but not kept: operations that enumerate all cells pairwise would take minutes on it
+                    res.bump("probe:result_too_large_to_keep")
+                    continue
                 want = outs[part_no] if part_no < len(outs) else None
                 nid = heap.add(obj, tuple(allowed_ids), want)
                 while len(outs) <= part_no:
@@ -491,6 +496,15 @@ class EngineB:
         res.events.append([i, op, [heap.kinds[n] for n in new_ids]])
         self._evict(heap, step)
         return None
+
+    @staticmethod
+    def _too_big(obj) -> bool:
+        sh = getattr(obj, "tshape", None) or getattr(obj, "shape", None)
+        try:
+            dims = [int(v) for v in sh]
+        except Exception:  # noqa: BLE001
+            return False
+        return len(dims) > 6 or int(np.prod(dims, dtype=object)) > 2500
 
     def _describe(self, step) -> str:
         d = {k: v for k, v in step.items() if k not in ("op", "tolerate", "data", "operands")}
@@ -512,8 +526,8 @@ class EngineB:
         if step["buffer"] >= len(bufs):
             raise _Skip()
         lb, b = bufs[step["buffer"]]
-        if b.size == 0 or step["pos"] >= b.size or not b.flags.writeable:
-            raise _Skip()
+        if b.size == 0 or step["pos"] >= b.size or not b.flags.writeable or b.dtype.kind not in "biuf":
+            raise _Skip()  # (object arrays -- e.g. an array of scipy matrices -- have no element to write a number into)
         idx = np.unravel_index(step["pos"], b.shape)
         integral = b.dtype.kind in "iu"
         if b.dtype.kind == "b":
